@@ -423,7 +423,7 @@ fn dfs_extend(c: &Collector, prefix: &mut String, depth_left: usize, red: &[char
 pub fn c03(c: &Collector, g: &mut Guard) {
     let a = alphabet_a();
     let n0 = if c.thorough() { 3 } else { 2 };
-    let nmax = if c.thorough() { 7 } else { 5 };
+    let nmax = if c.thorough() { 6 } else { 5 };
     let red = reduced_alphabet();
     c.bound("alphabet_size", json!(a.len()));
     c.bound("alphabet", json!(a.iter().map(|ch| esc(&ch.to_string())).collect::<Vec<_>>()));
@@ -1273,7 +1273,7 @@ pub fn macro_alphabet() -> Vec<&'static str> {
         "\x1bH", "\x1b#8", "\x1b[2;3H", "\x1b[H", "\x1b[2J", "\x1b[K", "\x1b[1K", "\x1b[@", "\x1b[2P", "\x1b[L",
         "\x1b[M", "\x1b[2;3r", "\x1b[r", "\x1b[?6h", "\x1b[?7l", "\x1b[4h", "\x1b[20h", "\x1b[?5h", "\x1b[1;31;44m",
         "\x1b[38;5;196m", "\x1b[m", "\x1b]0;t\x07", "\x1b]2;u\x1b\\", "\x1b[3g", "\x1b[?25l", "\x1b(0", "\x0e", "\u{9b}5C",
-        "\x1b[?3h", "\x1b%G", "\x1b[5$p", "\x1b[1;\n2H",
+        "\x1b[?3h", "\x1b%G", "\x1b[5$p", "\x1b[1;\n2H", "\x1b%@", "\x1b%8", "\u{e9}", "\x1b)U",
     ]
 }
 
